@@ -8,8 +8,9 @@ TUS = ['src/uscxml/util/Predicates.cpp', 'src/uscxml/debug/InterpreterIssue.cpp'
        'src/uscxml/plugins/datamodel/lua/LuaDataModel.cpp', 'src/uscxml/plugins/datamodel/promela/PromelaDataModel.cpp',
        'src/uscxml/plugins/datamodel/null/NullDataModel.cpp', 'src/uscxml/interpreter/LargeMicroStep.cpp', 'src/uscxml/interpreter/FastMicroStep.cpp']
 
-EXPRESSION_ATTRS = {'kXMLCharCond': 'cond', 'kXMLCharExpr': 'expr', 'kXMLCharArray': 'array'}
-LOCATION_ATTRS = {'kXMLCharItem': 'item', 'kXMLCharIndex': 'index', 'kXMLCharLocation': 'location'}
+EXPRESSION_ATTRS = {'kXMLCharCond': 'cond', 'kXMLCharExpr': 'expr', 'kXMLCharArray': 'array', 'kXMLCharEventExpr': 'eventexpr', 'kXMLCharTargetExpr': 'targetexpr',
+                    'kXMLCharTypeExpr': 'typeexpr', 'kXMLCharDelayExpr': 'delayexpr', 'kXMLCharSourceExpr': 'srcexpr', 'kXMLCharSendIdExpr': 'sendidexpr'}
+LOCATION_ATTRS = {'kXMLCharItem': 'item', 'kXMLCharIndex': 'index', 'kXMLCharLocation': 'location', 'kXMLCharIdLocation': 'idlocation'}
 PARSER_SINKS = ('luaL_loadstring', 'uscxml::luaEval', 'uscxml::PromelaParser::PromelaParser')
 
 # issues whose condition makes the engines or transpilers dereference a missing state or fail at init for structural
